@@ -15,16 +15,26 @@ debug profile: `none` = a panic).  A set of jobs (`Set256`) is a `Nat` bit mask;
   `nb_variables = n - 1` (`usize` underflow when `n = 0`: a panic); `next_variable(depth) = depth` while `depth < nb_variables`;
   `for_each_in_domain`: when `state.depth = nb_variables - 1` (underflow when `n = 1`) the only value is `n - 1`, whatever
   the state; otherwise the jobs of `must_schedule` that `can_schedule`, then those of `maybe_schedule` (when `Some`);
-  `can_schedule(s, j)`: NO predecessor of `j` belongs to `must_schedule ∪ maybe_schedule` — on a merged state this demands
-  that every predecessor be scheduled in ALL merged states (open defect D12, mirrored as it is);
-  `transition(s, j)`: `(Job j, must \ {j}, maybe.map (\ {j}), depth + 1)` (`j ≥ 256`: index out of range in the bit set);
+  `can_schedule(s, j)` (REPAIRED, finding D12): no predecessor of `j` belongs to `must_schedule` and — on a state that has a
+  `maybe_schedule` set — `|must_schedule| + |maybe_schedule \ predecessors[j]| ≥ nb_variables - depth` (saturating): enough
+  optional jobs that are no predecessors of `j` remain to fill the positions left, i.e. ONE of the exact states the merged
+  state stands for allows `j` (`canSchedule?`).  Before the repair (`canScheduleOld?`): NO predecessor of `j` belongs to
+  `must_schedule ∪ maybe_schedule` — on a merged state this demanded that every predecessor be scheduled in ALL merged
+  states, completions of merged-away states were lost (witness `SopModel.d12_refutes_MergeOkStmt`);
+  `transition(s, j)` (REPAIRED): `(Job j, must \ {j}, maybe.map (\ {j} \ predecessors[j]), depth + 1)` — a job that was allowed
+  has all its predecessors scheduled in the exact states that allowed it, so none of them "may still be to schedule"; this
+  keeps the invariant the other functions rely on: every job still (possibly) to schedule can follow one of the previous
+  jobs (`j ≥ 256`: index out of range in the bit set; `maybe_schedule = Some _` and `j ≥ n`: index out of range in
+  `predecessors`).  Before the repair (`transOld?`): `maybe.map (\ {j})`;
   `transition_cost = - min_distance_to(s, j)`; `min_distance_to`: from `Job i`: `isize::MAX` when `distances[i][j] = -1`, else
-  the distance; from `Virtual P`: the least `distances[i][j] ≠ -1` over `i ∈ P` (none: `unwrap` of `None`, a panic);
+  the distance; from `Virtual P`: the least `distances[i][j] ≠ -1` over `i ∈ P` (none: `isize::MAX` as well — REPAIRED, an
+  `unwrap` of `None` before);
 * `relax.rs`: `merge` = `(Virtual (∪ previous), ∩ must, (∪ maybe ∪ ∪ must) \ ∩ must  — None when empty —, max depth)`; no
   state at all: `(Virtual ∅, the full set of 256 jobs, None, 0)`; `relax` = the cost, unchanged;
-  `fast_upper_bound`: see `rubOld?` (cheapest incoming edge of every job still to do, from a job still to do; the
-  `complete_tour - 1` cheapest of them, the mandatory ones first unless the largest mandatory one exceeds the FIRST optional
-  one; plus the least distance from the current position);
+  `fast_upper_bound`: see `rub?` (cheapest incoming edge of every job still to do, from a job still to do; the
+  `complete_tour - 1` cheapest of them, the cheaper of the two mandatory / optional selections, `rubFinalFixed`, finding D19;
+  plus the least distance from the current position, by a SATURATING addition — REPAIRED with D12: `isize::MAX`, "no job can
+  follow the current position", no longer overflows);
 * `heuristics.rs`: `SopRanking::compare` compares the depths; `SopWidth::max_width = nb_vars * (depth + 1) * factor` (the depth
   of the SUB-PROBLEM). -/
 namespace Ddo.Examples.SopModel
@@ -37,6 +47,8 @@ def imin : Int := -9223372036854775808
 def chk (x : Int) : Option Int := if imin ≤ x ∧ x ≤ imax then some x else none
 /-- `a + b` on `isize` -/
 def addC (a b : Int) : Option Int := chk (a + b)
+/-- `a.saturating_add(b)` on `isize` -/
+def satAdd (a b : Int) : Int := max imin (min imax (a + b))
 
 -- ------------------------------------------------------------------------------------------------ bit sets (`Set256`)
 /-- the members of a set, increasingly (`Set256::iter`) -/
@@ -106,57 +118,92 @@ def nextVar (depth : Nat) : Option Nat := if depth < nv T then some depth else n
 /-- `distances[i][j]`; `none` = index out of range -/
 def dist? (i j : Nat) : Option Int := do let r ← T.d[i]?; r[j]?
 
-/-- `Sop::min_distance_to` -/
+/-- `Sop::min_distance_to`; `none` = a panic (index out of range).  From a pool of previous jobs none of which can precede
+    `j` the answer is `isize::MAX` (the repaired code: `unwrap_or(isize::MAX)`; an `unwrap` of `None` before) -/
 def minDist? (s : St) (j : Nat) : Option Int :=
   match s.prev with
   | .job i => do let w ← dist? T i j; pure (if w = -1 then imax else w)
   | .virt c => do
     let ws ← (bits c).mapM fun i => dist? T i j
-    minOf (ws.filter (· ≠ -1))
+    pure ((minOf (ws.filter (· ≠ -1))).getD imax)
 
 /-- everything that may still have to be scheduled -/
 def pending (s : St) : Nat := s.must ||| s.maybe.getD 0
 
-/-- `Sop::can_schedule`; `none` = a panic (`predecessors[j]` out of range) -/
-def canSchedule? (s : St) (j : Nat) : Option Bool := do
+/-- `Sop::can_schedule` BEFORE the repair of D12 (kept for the record and for the witness theorems of `SopModel.lean`): no
+    predecessor of `j` in `must_schedule ∪ maybe_schedule`; `none` = a panic (`predecessors[j]` out of range) -/
+def canScheduleOld? (s : St) (j : Nat) : Option Bool := do
   let p ← T.pred[j]?
   pure ((p &&& pending s) == 0)
+def canScheduleOld (s : St) (j : Nat) : Bool := (canScheduleOld? T s j).getD false
 
-def schedulable? (s : St) (js : List Nat) : Option (List Nat) := do
-  let fl ← js.mapM fun j => (canSchedule? T s j).map fun b => (j, b)
+/-- `Sop::can_schedule` (the REPAIRED code): no predecessor of `j` in `must_schedule` and, when there is a `maybe_schedule` set,
+    enough optional jobs that are no predecessors of `j` to fill the positions left
+    (`nb_variables().saturating_sub(depth)`); `none` = a panic (`predecessors[j]` out of range) -/
+def canSchedule? (s : St) (j : Nat) : Option Bool := do
+  let p ← T.pred[j]?
+  if (p &&& s.must) != 0 then pure false else
+  match s.maybe with
+  | none => pure true
+  | some y => pure (decide (card s.must + card (diff y p) ≥ nv T - s.depth))
+
+def schedulableWith? (can : St → Nat → Option Bool) (s : St) (js : List Nat) : Option (List Nat) := do
+  let fl ← js.mapM fun j => (can s j).map fun b => (j, b)
   pure ((fl.filter (·.2)).map (·.1))
 
-/-- `for_each_in_domain` (the variable is not read); `none` = a panic -/
-def domain? (s : St) : Option (List Int) :=
+/-- `for_each_in_domain` (the variable is not read) with `can` for `can_schedule`; `none` = a panic -/
+def domainWith? (can : St → Nat → Option Bool) (s : St) : Option (List Int) :=
   if T.n ≤ 1 then none else
   if s.depth = T.n - 2 then some [((T.n - 1 : Nat) : Int)] else do
-    let a ← schedulable? T s (bits s.must)
+    let a ← schedulableWith? can s (bits s.must)
     let b ← match s.maybe with
       | none => pure []
-      | some y => schedulable? T s (bits y)
+      | some y => schedulableWith? can s (bits y)
     pure ((a ++ b).map fun (j : Nat) => (j : Int))
 
-/-- `transition`; `none` = a panic (`Set256` holds the jobs `0 … 255`; a negative value is a huge `usize`) -/
-def trans? (s : St) (d : Dec) : Option St :=
+/-- `for_each_in_domain` of the repaired code -/
+def domain? (s : St) : Option (List Int) := domainWith? T (canSchedule? T) s
+/-- `for_each_in_domain` before the repair of D12 -/
+def domainOld? (s : St) : Option (List Int) := domainWith? T (canScheduleOld? T) s
+
+/-- `transition` BEFORE the repair of D12: the predecessors of the job decided stay in `maybe_schedule` -/
+def transOld? (s : St) (d : Dec) : Option St :=
   if d.val < 0 ∨ d.val ≥ 256 then none else
   let j := d.val.toNat
   some { prev := .job j, must := diff s.must (single j), maybe := s.maybe.map fun y => diff y (single j), depth := s.depth + 1 }
 
-/-- `transition_cost`; `none` = a panic -/
+/-- `transition` (the REPAIRED code: the predecessors of the job decided leave `maybe_schedule`); `none` = a panic (`Set256`
+    holds the jobs `0 … 255`; a negative value is a huge `usize`; `predecessors[j]` is read when there is a `maybe_schedule` set) -/
+def trans? (s : St) (d : Dec) : Option St :=
+  if d.val < 0 ∨ d.val ≥ 256 then none else
+  let j := d.val.toNat
+  match s.maybe with
+  | none => some { prev := .job j, must := diff s.must (single j), maybe := none, depth := s.depth + 1 }
+  | some y => do
+    let p ← T.pred[j]?
+    pure { prev := .job j, must := diff s.must (single j), maybe := some (diff (diff y (single j)) p), depth := s.depth + 1 }
+
+/-- `transition_cost`; `none` = a panic.  A negative value is a huge `usize`: every `distances[i][j]` read is out of range —
+    and from an EMPTY pool of previous jobs nothing is read: the distance is `isize::MAX` as for any job -/
 def cost? (s : St) (d : Dec) : Option Int :=
-  if d.val < 0 then none else do
+  if d.val < 0 then
+    (match s.prev with
+     | .virt c => if (bits c).isEmpty then chk (-imax) else none
+     | .job _ => none)
+  else do
   let w ← minDist? T s d.val.toNat
   chk (-w)
 
 def domain (s : St) : List Int := (domain? T s).getD []
-def trans (s : St) (d : Dec) : St := (trans? s d).getD s
+def domainOld (s : St) : List Int := (domainOld? T s).getD []
+def trans (s : St) (d : Dec) : St := (trans? T s d).getD s
 def cost (s : St) (d : Dec) : Int := (cost? T s d).getD 0
 
 def problem : Problem St :=
   { nbVars := nv T
     init := initSt T
     initVal := 0
-    trans := trans
+    trans := trans T
     cost := fun s _ d => cost T s d
     nextVar := fun depth _ => nextVar T depth
     domain := fun _ s => domain T s
@@ -225,6 +272,20 @@ def rubFinalFixed (ct nMust : Nat) (dist : Int) (toMust toMaybe : List Int) : Op
     let b := sum toMust + sum (toMaybe.take (k - 1))
     (addC dist (min a b)).bind fun x => chk (-x)
 
+/-- the last lines of the REPAIRED `fast_upper_bound` (D12): `rubFinalFixed` with the distance from the position added by
+    `saturating_add` (`isize::MAX` = no job can follow the position: the sum stays `isize::MAX`, the bound is `-isize::MAX`);
+    the same value as `rubFinalFixed` wherever that one does not overflow (`SopModel.rubFinalSat_eq_of_some`) -/
+def rubFinalSat (ct nMust : Nat) (dist : Int) (toMust toMaybe : List Int) : Option Int :=
+  if nMust ≥ ct then
+    (if ct = 0 then none else chk (-(satAdd dist (sum (toMust.take (ct - 1))))))
+  else if toMust.isEmpty then
+    chk (-(satAdd dist (sum (toMaybe.take (ct - 1)))))
+  else
+    let k := ct - toMust.length
+    let a := sum (toMust.take (toMust.length - 1)) + sum (toMaybe.take k)
+    let b := sum toMust + sum (toMaybe.take (k - 1))
+    chk (-(satAdd dist (min a b)))
+
 /-- `fast_upper_bound` up to its last lines (`fin`); `none` = a panic (`usize` underflow, index out of range, `unwrap` of
     `None`, `isize` overflow) -/
 def rubWith? (fin : Nat → Nat → Int → List Int → List Int → Option Int) (s : St) : Option Int := do
@@ -242,14 +303,14 @@ def rubWith? (fin : Nat → Nat → Int → List Int → List Int → Option Int
   let dist2 ← minDistAll? T s dist maybes
   fin ct nMust dist2 toMust toMaybe
 
-/-- `fast_upper_bound` (the code's) -/
+/-- `fast_upper_bound` as first shipped (before D19) -/
 def rubOld? (s : St) : Option Int := rubWith? T rubFinal s
-/-- the corrected bound (`rubFinalFixed`): NOT the code's -/
+/-- the bound corrected for D19 (`rubFinalFixed`), checked additions: the code between the repairs of D19 and D12 -/
 def rubFixed? (s : St) : Option Int := rubWith? T rubFinalFixed s
-/-- `fast_upper_bound` of the REPAIRED code (`fix:` commit of /repo, finding D19): the mixed branch keeps the lesser of the two
-    edge selections; `rubOld?` above is the bound as shipped before (it compared the largest mandatory edge with the FIRST
-    optional edge; witness `SopModel.rub_refutes_RubAdmissibleStmt`) -/
-def rub? (s : St) : Option Int := rubFixed? T s
+/-- `fast_upper_bound` of the REPAIRED code: the mixed branch keeps the lesser of the two edge selections (finding D19;
+    `rubOld?` above is the bound as shipped before: it compared the largest mandatory edge with the FIRST optional edge, witness
+    `SopModel.rub_refutes_RubAdmissibleStmt`) and the distance from the position is added by `saturating_add` (finding D12) -/
+def rub? (s : St) : Option Int := rubWith? T rubFinalSat s
 
 def relaxation : Relax St :=
   { merge := merge
@@ -265,28 +326,36 @@ def maxWidth (nbVars factor depth : Nat) : Nat := nbVars * (depth + 1) * factor
 -- ------------------------------------------------------------------------------------------------------------------
 -- what the driver evaluates pointwise (exhaustive enumeration over the remaining jobs with the model's own functions)
 
-/-- the domain with `can_schedule` weakened to "no predecessor MUST still be scheduled" (what a merged state has to allow
-    for its merged-away states to keep their completions): only used to CLASSIFY a violation of `MergeOk` -/
+/-- the domain with `can_schedule` weakened to "no predecessor MUST still be scheduled" and nothing else (the first reading
+    of the repair of D12, without the count of the optional jobs): only kept for the witness theorems of `SopModel.lean` -/
 def domainLax (s : St) : List Int :=
   if T.n ≤ 1 then [] else
   if s.depth = T.n - 2 then [((T.n - 1 : Nat) : Int)] else
   ((bits (pending s)).filter fun j => ((T.pred.getD j 0) &&& s.must) == 0).map fun (j : Nat) => (j : Int)
 
+/-- which DP the value-to-go is taken in: `code` = the repaired code (`domain`, `trans?`); `old` = before the repair of D12
+    (`domainOld`, `transOld?`); `lax` = `domainLax`, `transOld?`, a panicking cost read as `-isize::MAX` -/
+inductive Mode where
+  | code | old | lax
+deriving DecidableEq, Repr
+
 /-- the value-to-go of `s`: the best total transition cost over ALL completions of `s` (every sequence of decisions on the
-    variables `s.depth, …, nv-1`, each in the domain of the state reached); `none` = −∞ (no completion).  `lax` = with
-    `domainLax` and a panicking cost read as `-isize::MAX`.  `fuel ≥ nv - s.depth`. -/
-def bestRemF (lax : Bool) : Nat → St → EInt
+    variables `s.depth, …, nv-1`, each in the domain of the state reached); `none` = −∞ (no completion).  `fuel ≥ nv - s.depth`. -/
+def bestRemF (mode : Mode) : Nat → St → EInt
   | 0, _ => some 0
   | fuel + 1, s =>
     if s.depth ≥ nv T then some 0 else
     let x := s.depth
-    (if lax then domainLax T s else domain T s).foldl (fun acc v =>
-      match trans? s ⟨x, v⟩, cost? T s ⟨x, v⟩ with
-      | some s2, some c => EInt.max acc ((bestRemF lax fuel s2).addI c)
-      | some s2, none => if lax then EInt.max acc ((bestRemF lax fuel s2).addI (-imax)) else acc
+    (match mode with | .code => domain T s | .old => domainOld T s | .lax => domainLax T s).foldl (fun acc v =>
+      match (match mode with | .code => trans? T s ⟨x, v⟩ | _ => transOld? s ⟨x, v⟩), cost? T s ⟨x, v⟩ with
+      | some s2, some c => EInt.max acc ((bestRemF mode fuel s2).addI c)
+      | some s2, none => if mode = Mode.lax then EInt.max acc ((bestRemF mode fuel s2).addI (-imax)) else acc
       | _, _ => acc) none
-def bestRem (s : St) : EInt := bestRemF T false (nv T - s.depth) s
-def bestRemLax (s : St) : EInt := bestRemF T true (nv T - s.depth) s
+/-- the value-to-go in the DP of the repaired code -/
+def bestRem (s : St) : EInt := bestRemF T .code (nv T - s.depth) s
+/-- the value-to-go in the DP before the repair of D12 -/
+def bestRemOld (s : St) : EInt := bestRemF T .old (nv T - s.depth) s
+def bestRemLax (s : St) : EInt := bestRemF T .lax (nv T - s.depth) s
 
 /-- the states the pointwise statements are about: jobs of the instance only, job 0 done, not deeper than the last
     layer, the last job still to do before the last layer, a non-empty pool of previous jobs none of which is still to do
@@ -341,9 +410,10 @@ def mergeOkWith (hu hm : EInt) (c r : Int) : Bool :=
     | none => false
     | some h' => decide (c + h ≤ r + h')
 def mergeOkAt (u m : St) (c r : Int) : Bool := mergeOkWith (bestRem T u) (bestRem T m) c r
-/-- the same with the weakened `can_schedule` in the merged state: a violation of `mergeOkAt` that disappears here is of
-    the class of D12 (`sop-merge-can-schedule`) -/
-def mergeOkLaxAt (u m : St) (c r : Int) : Bool := mergeOkWith (bestRem T u) (bestRemLax T m) c r
+/-- the same in the DP before the repair of D12 (`canScheduleOld?`, `transOld?`): REFUTED, `SopModel.d12_refutes_MergeOkStmt` -/
+def mergeOkOldAt (u m : St) (c r : Int) : Bool := mergeOkWith (bestRemOld T u) (bestRemOld T m) c r
+/-- the old DP with `can_schedule` merely weakened to the mandatory jobs in the merged state (`domainLax`) -/
+def mergeOkLaxAt (u m : St) (c r : Int) : Bool := mergeOkWith (bestRemOld T u) (bestRemLax T m) c r
 
 -- ------------------------------------------------------------------------------------------------------------------
 -- the independent specification (`Sop.lean`)
